@@ -515,7 +515,7 @@ def coordText (s : Str) : Conv Fl :=
   match convText 'f' (some s) with
   | .val (.flt x) u => .val x u
   | .val _ _ => .unsup
-  | .none => .unsup          -- blank element: the C code copies an indeterminate buffer
+  | .none => .err .BadType   -- blank element: MissingData of the element, BadType of the value
   | .err _ => .err .BadType
   | .unsup => .unsup
 
@@ -528,10 +528,12 @@ def fpointText (lo hi : Fl) (v : Option Str) : Conv (Fl × Fl) :=
     match coordText s with
     | .err e => .err e
     | .unsup => .unsup
-    | .none => .unsup
+    | .none => .err .BadType
     | .val x used =>
+      -- iterator exhausted after the first value: the second coordinate repeats the first (return 1)
+      let single := used ≥ s.length
       let second : Conv Fl :=
-        if used ≥ s.length then .val x 0           -- iterator exhausted: second coordinate repeats the first
+        if single then .val x 0
         else
           let rest := s.drop (used + 1)             -- one separator character is skipped
           if rest.isEmpty then .err .BadType        -- MissingData of the element, BadType of the value
@@ -541,7 +543,7 @@ def fpointText (lo hi : Fl) (v : Option Str) : Conv (Fl × Fl) :=
       | .unsup => .unsup
       | .none => .unsup
       | .val y _ =>
-        if x.lt lo || y.lt lo || hi.lt x || hi.lt y then .err .BadValue else .val (x, y) 2
+        if x.lt lo || y.lt lo || hi.lt x || hi.lt y then .err .BadValue else .val (x, y) (if single then 1 else 2)
 
 /-- graph `align` letters: `n |= flag << (i-1)*2` after `i` was advanced (two bits per axis, at most four
     letters), truncated to 8 bits -/
